@@ -11,6 +11,7 @@
 #include <covfie/core/backend/transformer/nearest_neighbour.hpp>
 #include <covfie/core/backend/transformer/strided.hpp>
 #include <covfie/core/field.hpp>
+#include <sstream>
 #include "common.hpp"
 #include "probe.hpp"
 using namespace vf;
@@ -83,6 +84,16 @@ static void run_case(const json & c, int mode) {
         typename covfie::field<CI>::view_t v(f);
         auto r = v.at(x);
         for (std::size_t i = 0; i < N; ++i) expect_eq("clamp/identity/" + tag, (long double)r[i], (long double)want[i], ctx);
+        if ((g_cases % 3) == 0) {     // the same box reached through dump + load, and through assignment over a different box
+            std::stringstream ss; f.dump(ss);
+            covfie::field<CI> fl(ss);
+            auto r2 = typename covfie::field<CI>::view_t(fl).at(x);
+            for (std::size_t i = 0; i < N; ++i) expect_eq("clamp/identity-after-dump-load/" + tag, (long double)r2[i], (long double)want[i], ctx);
+            covfie::field<CI> fa(covfie::make_parameter_pack(typename CI::configuration_t{hi, hi}, std::monostate{}));
+            fa = covfie::field<CI>(f);
+            auto r3 = typename covfie::field<CI>::view_t(fa).at(x);
+            for (std::size_t i = 0; i < N; ++i) expect_eq("clamp/identity-after-move-assignment/" + tag, (long double)r3[i], (long double)want[i], ctx);
+        }
     }
     // ---- C10: clamp over the probe: queried coordinate, query count, returned value
     if (g_which != "backup") {
@@ -106,6 +117,23 @@ static void run_case(const json & c, int mode) {
         auto r = v.at(x);
         bool inside = c["inside"].get<bool>();
         expect_eq("backup/probe-queries/" + tag, g_probe.queries, inside ? 1L : 0L, ctx);
+        if ((g_cases % 3) == 0) {     // the same configuration reached through dump + load and through assignment (backup over identity)
+            using BI = cb::backup<cb::identity<V>>;
+            typename BI::configuration_t bc; bc.min = lo; bc.max = hi;
+            for (std::size_t i = 0; i < N; ++i) bc.default_value[i] = static_cast<T>(i + 1 == N ? 5 : 6);
+            covfie::field<BI> fi(covfie::make_parameter_pack(typename BI::configuration_t(bc), std::monostate{}));
+            std::stringstream ss; fi.dump(ss);
+            covfie::field<BI> fl(ss);
+            typename BI::configuration_t other = bc; for (std::size_t i = 0; i < N; ++i) other.default_value[i] = static_cast<T>(1);
+            covfie::field<BI> fa(covfie::make_parameter_pack(typename BI::configuration_t(other), std::monostate{}));
+            fa = covfie::field<BI>(fi);
+            for (auto * fld : {&fl, &fa}) {
+                auto rr = typename covfie::field<BI>::view_t(*fld).at(x);
+                for (std::size_t i = 0; i < N; ++i)
+                    expect_eq(std::string(fld == &fl ? "backup/after-dump-load/" : "backup/after-move-assignment/") + tag, (long double)rr[i],
+                              inside ? (long double)x[i] : (long double)bc.default_value[i], ctx);
+            }
+        }
         if (inside) {
             long double wc[8];
             for (std::size_t i = 0; i < N; ++i) { wc[i] = (long double)x[i]; expect_eq("backup/probe-coordinate/" + tag, g_probe.last[i], wc[i], ctx); }
